@@ -68,6 +68,9 @@ def worker_main(argv):
     specs = json.load(open(os.path.join(workdir, "plan.json")))
     rec = Recorder(pid, tier, seed, idx)
     rec.classifier = getattr(mod, "classify", None)
+    from . import covmon
+
+    cov_on = covmon.start(os.path.join(REPO, "src"))
     try:
         mod.run_shard(specs[idx], rec)
     except Exception:
@@ -75,6 +78,9 @@ def worker_main(argv):
 
         rec.inconc("shard %d crashed in harness: %s" % (idx, traceback.format_exc().strip().splitlines()[-1]))
         rec.note(traceback.format_exc())
+    if cov_on:
+        covmon.stop()
+        rec.extra["anchor_lines_hit"] = covmon.hits_by_file()
     rec.dump(os.path.join(workdir, "shard%d.pkl" % idx))
     return 0
 
@@ -236,6 +242,14 @@ def main(argv=None):
     }
     if getattr(mod, "EXHAUSTIVE_PARTS", None):
         cov["exhaustive_parts"] = mod.EXHAUSTIVE_PARTS
+    hits = rec.extra.pop("anchor_lines_hit", None)
+    if hits is not None:
+        from . import covmon
+
+        try:
+            cov["anchor_coverage"] = covmon.summarise(hits, os.path.join(REPO, "src"), getattr(mod, "ANCHOR_FILES", ()))
+        except Exception as e:  # never let reporting break a verdict
+            cov["anchor_coverage"] = {"error": repr(e)}
     for k, v in rec.extra.items():
         cov[k] = jsonable(v)
     ev = {
